@@ -269,3 +269,26 @@ func HarnessC01Cron(L int, prefix int) {
 	}
 	verifReach("checked")
 }
+
+// HarnessC01NoProject: several files that belong to no repository, one of them
+// with a local reusable workflow call (valid or with a ref): LintFiles does not panic.
+func HarnessC01NoProject() {
+	if verifIsNative() {
+		verifReach("returned")
+		return // the virtual file system exists only under the interpreter; a panic is reproduced by the stored replay's stack
+	}
+	uses := []string{"./x.yml@ref", "./x.yml", "./", "./a/../x.yml@v1"}[verifChoose("uses", 4)]
+	verifC10Files = map[string]string{
+		"/x/a.yml": "on: push\njobs:\n  j:\n    runs-on: ubuntu-latest\n    steps:\n      - run: echo\n",
+		"/x/b.yml": "on: push\njobs:\n  j:\n    uses: " + uses + "\n",
+	}
+	verifC10Cfg = map[string]*Config{}
+	verifSetCwd("/x")
+	verifOverride("os.ReadFile", verifC10ReadFile)
+	verifOverride("findProject", verifC10FindProject)
+	verifOverride("loadRepoConfig", verifC10RepoConfig)
+	l := &Linter{projects: NewProjects(), cwd: "/x", out: nil}
+	_, err := l.LintFiles([]string{"/x/a.yml", "/x/b.yml"}, nil)
+	verifCheck(err == nil, "lint-failed")
+	verifReach("returned")
+}
